@@ -30,3 +30,119 @@ package internal
 //@   at-return [remainderFlushedAtEndOfInput C02] result == nil && len(suffix) != 0 ==> flushed == len(suffix) && flushErr == nil
 //@   loop 0: invariant [streamResumesExactly C02 C07] in != nil && out == old(out) && 0 <= fetched(in) && fetched(in) <= N(in) && 0 <= wlen(out) && N(in) - fetched(in) <= N(old(in)) - old(fetched(old(in))) && (forall k :: 0 <= k && k < N(in) - fetched(in) ==> S(in, fetched(in) + k) == S(old(in), N(old(in)) - (N(in) - fetched(in)) + k))
 //@   loop 0: decreases N(in) - fetched(in)
+
+// ---- main.go: console writers (C16: completeness, order, filter/match) -------------
+// The sequence of strings written with io.WriteString is a ghost of the writer
+// (lib/io.contracts). hdr[i] and lines[i] record what BucketHeader / StackLines
+// returned for block i; a block is admitted when the filter expression does not
+// match its header and the match expression (if any) does. The postconditions
+// say that exactly the admitted blocks are written, each as header followed by
+// its lines, in the order of the input, and nothing else after the banner.
+//@ func writeBucketsToConsole
+//@   requires out != nil && p != nil && a != nil && forall i :: 0 <= i && i < len(a.Buckets) ==> a.Buckets[i] != nil
+//@   requires 0 <= wsn(out)
+//@   modifies ghost:wsn at out; ghost:wss at out
+//@   gvar base int
+//@   gvar hdr [int]string
+//@   gvar lines [int]string
+//@   gvar pos [int]int
+//@   gvar src [int]int
+//@   update after-call calcBucketsLengths#1: base := wsn(out)
+//@   update after-call BucketHeader#1: hdr[rangeindex] := ret0
+//@   update after-call StackLines#1: lines[rangeindex] := ret0
+//@   update after-call io.WriteString#2: pos[rangeindex] := wsn(out) - 1; src[wsn(out) - 1] := rangeindex
+//@   update after-call io.WriteString#3: src[wsn(out) - 1] := rangeindex
+//@   at-return [everyAdmittedBlockWritten C16] forall i :: 0 <= i && i < len(a.Buckets) && (filter == nil || !reMatch(filter, hdr[i])) && (match == nil || reMatch(match, hdr[i])) ==> base <= pos[i] && pos[i] + 1 < wsn(out) && wss(out)[pos[i]] == hdr[i] && wss(out)[pos[i] + 1] == lines[i]
+//@   at-return [onlyAdmittedBlocksWritten C16] forall k :: base <= k && k < wsn(out) ==> 0 <= src[k] && src[k] < len(a.Buckets) && (filter == nil || !reMatch(filter, hdr[src[k]])) && (match == nil || reMatch(match, hdr[src[k]])) && (k == pos[src[k]] || k == pos[src[k]] + 1)
+//@   at-return [blocksInInputOrder C16] forall i, j :: 0 <= i && i < j && j < len(a.Buckets) && (filter == nil || !reMatch(filter, hdr[i])) && (match == nil || reMatch(match, hdr[i])) && (filter == nil || !reMatch(filter, hdr[j])) && (match == nil || reMatch(match, hdr[j])) ==> pos[i] + 1 < pos[j]
+//@   ensures [earlierOutputKept C16] wsn(out) >= old(wsn(out)) && forall k :: 0 <= k && k < old(wsn(out)) ==> wss(out)[k] == old(wss(out))[k]
+//@   loop 0: invariant -1 <= rangeindex && rangeindex < len(a.Buckets) && base <= wsn(out) && old(wsn(out)) <= base
+//@   loop 0: invariant forall k :: 0 <= k && k < old(wsn(out)) ==> wss(out)[k] == old(wss(out))[k]
+//@   loop 0: invariant [written] forall i :: 0 <= i && i <= rangeindex && (filter == nil || !reMatch(filter, hdr[i])) && (match == nil || reMatch(match, hdr[i])) ==> base <= pos[i] && pos[i] + 1 < wsn(out) && wss(out)[pos[i]] == hdr[i] && wss(out)[pos[i] + 1] == lines[i]
+//@   loop 0: invariant [onlyThose] forall k :: base <= k && k < wsn(out) ==> 0 <= src[k] && src[k] <= rangeindex && (filter == nil || !reMatch(filter, hdr[src[k]])) && (match == nil || reMatch(match, hdr[src[k]])) && (k == pos[src[k]] || k == pos[src[k]] + 1)
+//@   loop 0: invariant [ordered] forall i, j :: 0 <= i && i < j && j <= rangeindex && (filter == nil || !reMatch(filter, hdr[i])) && (match == nil || reMatch(match, hdr[i])) && (filter == nil || !reMatch(filter, hdr[j])) && (match == nil || reMatch(match, hdr[j])) ==> pos[i] + 1 < pos[j]
+//@   loop 0: decreases len(a.Buckets) - rangeindex
+
+//@ func writeGoroutinesToConsole
+//@   requires out != nil && p != nil && s != nil && forall i :: 0 <= i && i < len(s.Goroutines) ==> s.Goroutines[i] != nil
+//@   requires 0 <= wsn(out)
+//@   modifies ghost:wsn at out; ghost:wss at out
+//@   gvar base int
+//@   gvar hdr [int]string
+//@   gvar lines [int]string
+//@   gvar pos [int]int
+//@   gvar src [int]int
+//@   update after-call calcGoroutinesLengths#1: base := wsn(out)
+//@   update after-call GoroutineHeader#1: hdr[rangeindex] := ret0
+//@   update after-call StackLines#1: lines[rangeindex] := ret0
+//@   update after-call io.WriteString#2: pos[rangeindex] := wsn(out) - 1; src[wsn(out) - 1] := rangeindex
+//@   update after-call io.WriteString#3: src[wsn(out) - 1] := rangeindex
+//@   at-return [everyAdmittedBlockWritten C16] forall i :: 0 <= i && i < len(s.Goroutines) && (filter == nil || !reMatch(filter, hdr[i])) && (match == nil || reMatch(match, hdr[i])) ==> base <= pos[i] && pos[i] + 1 < wsn(out) && wss(out)[pos[i]] == hdr[i] && wss(out)[pos[i] + 1] == lines[i]
+//@   at-return [onlyAdmittedBlocksWritten C16] forall k :: base <= k && k < wsn(out) ==> 0 <= src[k] && src[k] < len(s.Goroutines) && (filter == nil || !reMatch(filter, hdr[src[k]])) && (match == nil || reMatch(match, hdr[src[k]])) && (k == pos[src[k]] || k == pos[src[k]] + 1)
+//@   at-return [blocksInInputOrder C16] forall i, j :: 0 <= i && i < j && j < len(s.Goroutines) && (filter == nil || !reMatch(filter, hdr[i])) && (match == nil || reMatch(match, hdr[i])) && (filter == nil || !reMatch(filter, hdr[j])) && (match == nil || reMatch(match, hdr[j])) ==> pos[i] + 1 < pos[j]
+//@   ensures [earlierOutputKept C16] wsn(out) >= old(wsn(out)) && forall k :: 0 <= k && k < old(wsn(out)) ==> wss(out)[k] == old(wss(out))[k]
+//@   loop 0: invariant -1 <= rangeindex && rangeindex < len(s.Goroutines) && base <= wsn(out) && old(wsn(out)) <= base
+//@   loop 0: invariant forall k :: 0 <= k && k < old(wsn(out)) ==> wss(out)[k] == old(wss(out))[k]
+//@   loop 0: invariant [written] forall i :: 0 <= i && i <= rangeindex && (filter == nil || !reMatch(filter, hdr[i])) && (match == nil || reMatch(match, hdr[i])) ==> base <= pos[i] && pos[i] + 1 < wsn(out) && wss(out)[pos[i]] == hdr[i] && wss(out)[pos[i] + 1] == lines[i]
+//@   loop 0: invariant [onlyThose] forall k :: base <= k && k < wsn(out) ==> 0 <= src[k] && src[k] <= rangeindex && (filter == nil || !reMatch(filter, hdr[src[k]])) && (match == nil || reMatch(match, hdr[src[k]])) && (k == pos[src[k]] || k == pos[src[k]] + 1)
+//@   loop 0: invariant [ordered] forall i, j :: 0 <= i && i < j && j <= rangeindex && (filter == nil || !reMatch(filter, hdr[i])) && (match == nil || reMatch(match, hdr[i])) && (filter == nil || !reMatch(filter, hdr[j])) && (match == nil || reMatch(match, hdr[j])) ==> pos[i] + 1 < pos[j]
+//@   loop 0: decreases len(s.Goroutines) - rangeindex
+
+// ---- ui.go: column widths and line formatting (C03 memory safety; C16 widths) ------
+//@ func (pathFormat).formatCall
+//@   requires c != nil
+//@   modifies nothing
+//@ func (pathFormat).createdByString
+//@   requires s != nil
+//@   modifies nothing
+//@ func calcBucketsLengths
+//@   requires a != nil && forall i :: 0 <= i && i < len(a.Buckets) ==> a.Buckets[i] != nil
+//@   modifies nothing
+//@   gvar fl [int][int]int
+//@   update after-call formatCall#1: fl[rangeindex#1][rangeindex#2] := len(ret0)
+//@   at-return [sourceColumnWideEnough C16] forall b, i :: 0 <= b && b < len(a.Buckets) && 0 <= i && i < len(a.Buckets[b].Signature.Stack.Calls) ==> fl[b][i] <= result0
+//@   ensures [packageColumnWideEnough C16] forall b, i :: 0 <= b && b < len(a.Buckets) && 0 <= i && i < len(a.Buckets[b].Signature.Stack.Calls) ==> len(a.Buckets[b].Signature.Stack.Calls[i].Func.DirName) <= result1
+//@   loop 0: invariant -1 <= rangeindex && 0 <= srcLen && 0 <= pkgLen
+//@   loop 0: invariant forall b, i :: 0 <= b && b <= rangeindex && 0 <= i && i < len(a.Buckets[b].Signature.Stack.Calls) ==> fl[b][i] <= srcLen && len(a.Buckets[b].Signature.Stack.Calls[i].Func.DirName) <= pkgLen
+//@   loop 0: decreases len(a.Buckets) - rangeindex
+//@   loop 1: invariant 0 <= rangeindex#1 && rangeindex#1 < len(a.Buckets) && -1 <= rangeindex#2 && e == a.Buckets[rangeindex#1] && 0 <= srcLen && 0 <= pkgLen
+//@   loop 1: invariant forall b, i :: 0 <= b && b < rangeindex#1 && 0 <= i && i < len(a.Buckets[b].Signature.Stack.Calls) ==> fl[b][i] <= srcLen && len(a.Buckets[b].Signature.Stack.Calls[i].Func.DirName) <= pkgLen
+//@   loop 1: invariant forall i :: 0 <= i && i <= rangeindex#2 ==> fl[rangeindex#1][i] <= srcLen && len(e.Signature.Stack.Calls[i].Func.DirName) <= pkgLen
+//@   loop 1: decreases len(e.Signature.Stack.Calls) - rangeindex#2
+//@ func calcGoroutinesLengths
+//@   requires s != nil && forall i :: 0 <= i && i < len(s.Goroutines) ==> s.Goroutines[i] != nil
+//@   modifies nothing
+//@   gvar fl [int][int]int
+//@   update after-call formatCall#1: fl[rangeindex#1][rangeindex#2] := len(ret0)
+//@   at-return [sourceColumnWideEnough C16] forall b, i :: 0 <= b && b < len(s.Goroutines) && 0 <= i && i < len(s.Goroutines[b].Signature.Stack.Calls) ==> fl[b][i] <= result0
+//@   ensures [packageColumnWideEnough C16] forall b, i :: 0 <= b && b < len(s.Goroutines) && 0 <= i && i < len(s.Goroutines[b].Signature.Stack.Calls) ==> len(s.Goroutines[b].Signature.Stack.Calls[i].Func.DirName) <= result1
+//@   loop 0: invariant -1 <= rangeindex && 0 <= srcLen && 0 <= pkgLen
+//@   loop 0: invariant forall b, i :: 0 <= b && b <= rangeindex && 0 <= i && i < len(s.Goroutines[b].Signature.Stack.Calls) ==> fl[b][i] <= srcLen && len(s.Goroutines[b].Signature.Stack.Calls[i].Func.DirName) <= pkgLen
+//@   loop 0: decreases len(s.Goroutines) - rangeindex
+//@   loop 1: invariant 0 <= rangeindex#1 && rangeindex#1 < len(s.Goroutines) && -1 <= rangeindex#2 && e == s.Goroutines[rangeindex#1] && 0 <= srcLen && 0 <= pkgLen
+//@   loop 1: invariant forall b, i :: 0 <= b && b < rangeindex#1 && 0 <= i && i < len(s.Goroutines[b].Signature.Stack.Calls) ==> fl[b][i] <= srcLen && len(s.Goroutines[b].Signature.Stack.Calls[i].Func.DirName) <= pkgLen
+//@   loop 1: invariant forall i :: 0 <= i && i <= rangeindex#2 ==> fl[rangeindex#1][i] <= srcLen && len(e.Signature.Stack.Calls[i].Func.DirName) <= pkgLen
+//@   loop 1: decreases len(e.Signature.Stack.Calls) - rangeindex#2
+//@ func (*Palette).functionColor
+//@   requires p != nil && c != nil
+//@   modifies nothing
+//@ func (*Palette).funcColor
+//@   requires p != nil
+//@   modifies nothing
+//@ func (*Palette).routineColor
+//@   requires p != nil
+//@   modifies nothing
+//@ func (*Palette).BucketHeader
+//@   requires p != nil && b != nil
+//@   modifies nothing
+//@ func (*Palette).GoroutineHeader
+//@   requires p != nil && g != nil
+//@   modifies nothing
+//@ func (*Palette).callLine
+//@   requires p != nil && line != nil
+//@   modifies nothing
+//@ func (*Palette).StackLines
+//@   requires p != nil && signature != nil
+//@   modifies nothing
+//@   loop 0: invariant -1 <= rangeindex && fresh(out) && len(out) == len(signature.Stack.Calls)
+//@   loop 0: decreases len(signature.Stack.Calls) - rangeindex
